@@ -107,6 +107,8 @@ package verifspec
 //@   panics_only_if true
 //@   requires h != nil
 //@   oncall Decode: assert newobj(boxed(a0))
+// (the only object written is the decode target, which by the clause above is allocated here)
+//@   assigns nothing
 //@   ensures err == nil ==> (h.Payload[0] == 1 ==> typeis(value, "go/token.Pos")) && (h.Payload[0] == 2 ==> typeis(value, "internal/sourcemapx.Identifier"))
 //@   ensures err == nil ==> h.Payload[0] == 1 || h.Payload[0] == 2
 
